@@ -87,6 +87,8 @@ def gen_spec(seed):
         if not pool:
             continue
         op = rng.choice(pool)
+        if core.Z.sensitive and rng.random() < 0.12:
+            op = core.Z.op_by_name[rng.choice(core.Z.sensitive)]  # a call that is easy to disturb
         step = {"op": op.name, "ctx": rng.randrange(nctx)}
         if fault_rate and rng.random() < fault_rate:
             f = gen_fault(rng, op, enabled)
